@@ -41,6 +41,29 @@ def H(mod):
 
 
 TYPES, MVD, RLE, MBK = H("types"), H("decoder::cpu::mvd_pred"), H("decoder::cpu::rle"), H("parser::macroblock")
+GATH = H("decoder::cpu::gather")
+
+
+def _w(h, name, nbytes, tries=4000):
+    return ("h263", h["replay_mod"], name, nbytes, tries)
+
+
+# (unit, function) -> sibling harnesses used as native witness search when the Verus obligation of that function fails
+VERUS_WITNESS.update({
+    ("*", "gather_block"): [_w(GATH, "gb_dyn", 3300, 20000)],
+    ("*", "read_sample"): [_w(GATH, "read_sample_dyn", 420)],
+    ("*", "lerp"): [_w(GATH, "lerp_dyn", 3)],
+    ("*", "average_sum_of_mvs"): [_w(TYPES, "chroma_round", 2, 200000)],
+    ("*", "median_of"): [_w(TYPES, "median", 6, 100000)],
+    ("*", "into_lerp_parameters"): [_w(TYPES, "lerp_params", 2, 70000)],
+    ("*", "invert"): [_w(TYPES, "invert_range", 4, 70000)],
+    ("*", "is_mv_within_range"): [_w(TYPES, "invert_range", 4, 70000)],
+    ("*", "halfpel_decode"): [_w(MVD, "halfpel_base", 12, 100000)],
+    ("*", "mv_decode"): [_w(MVD, "mv_decode_base", 8, 100000)],
+    ("*", "predict_candidate"): [_w(MVD, "predict_c3_m4", 160, 20000), _w(MVD, "predict_c2_m3", 128, 20000), _w(MVD, "predict_c1_m1", 64, 20000)],
+    ("*", "inverse_rle"): [_w(RLE, "single_intra", 5, 100000), _w(RLE, "multi3", 12, 50000)],
+    ("*", "into_level"): [_w(TYPES, "intradc", 1, 2000)],
+})
 
 
 def kani_harnesses(prop, tier):
